@@ -9,7 +9,7 @@ META = dict(
          "metas). Each is parsed into logical commands and re-rendered with exactly one layout edit: each command's indentation "
          "set to 0/2/7 spaces or a tab; a trailing comment (plain, and one holding quotes and connectives) appended; a blank / "
          "comment / indented comment line inserted before it; a backslash continuation at each token boundary (continuation line indented by spaces, and by a tab); a line break "
-         "before each connective token - every edit at every position - plus the all-at-once variant of each kind, the "
+         "before each connective token; for every command with >= 2 connectives a continuation line at every connective with a blank / whitespace-only / comment / indented-comment line before one of them - every edit at every position - plus the all-at-once variant of each kind, the "
          "one-command-per-line normal form and all kinds combined (thorough: also every pair of single edits of one runnable "
          "program). Oracle: the structural dump of the built houses equals that of the original text (or the same error); "
          "for the runnable programs the recorder events, per-tick framer snapshots and outcome of a 12-tick real Skedder run "
@@ -88,6 +88,7 @@ def edit_kind(label):
     pre = "all " if label.startswith("all:") else ""
     tail = label[5:] if pre else label.rsplit("`: ", 1)[-1]
     for k in ("indent", "trailing comment", "line", "blank and comment lines", "backslash+tab", "backslash", "newline before",
+              "continuation lines",
               "every kind combined"):
         if tail.startswith(k):
             return pre + k
@@ -212,7 +213,7 @@ def run():
     ]
     return ck.finish(
         rule="every single layout edit (4 indents, 2 trailing comments, 3 inserted lines, backslash at each token boundary, "
-             "newline before each connective) at every command of %d programs, plus 12 all-at-once variants each%s; "
+             "newline before each connective) at every command of %d programs, plus 13 all-at-once variants each%s; "
              "non-trivial = variant text different from the original"
              % (len(progs), " and every pair of single edits of program 'flat'" if core.TIER == "thorough" else ""),
         exhaustive=True)
